@@ -42,7 +42,7 @@ def set_text_attrs(v, obj, key, attrs, maxlen, alphabet=None, which=None):
 def values_for(v, key, vclass, count, maxlen=2, alphabet=None, int_lo=None, int_hi=None):
     """(dtype, values) of one value class.  dtype None = inferred."""
     if vclass == "str":
-        dtype = v.pick(key + ".dtype", [None, "string", "text", "url", "person"])
+        dtype = v.pick(key + ".dtype", [None, "string", "text", "url", "person"] if maxlen < 2 or v.tier == "quick" else [None, "text"])
         return dtype, [v.str("%s.v%d" % (key, i), maxlen, alphabet) for i in range(count)]
     if vclass == "int":
         return v.pick(key + ".dtype", [None, "int"]), [v.int("%s.v%d" % (key, i), int_lo, int_hi) for i in range(count)]
